@@ -293,7 +293,7 @@ impl<'g, 'r> S<'g, 'r> {
     fn node(&mut self, n: &Node, out: &mut String, atom_non: bool, depth: usize) {
         self.budget = self.budget.saturating_sub(1);
         let deep = depth > self.max_depth || self.budget == 0;
-        if depth > self.max_depth + 30 || (self.budget == 0 && depth > self.max_depth + 4) {
+        if depth > self.max_depth + 30 || self.budget == 0 {
             // a rule that can only be derived through itself: give up on this branch
             return;
         }
@@ -423,9 +423,14 @@ thread_local! {
 
 /// A random derivation of `rule` (not guaranteed to be accepted: predicates are not solved).
 pub fn sentence(g: &Grammar, rule: &str, rng: &mut Rng, max_depth: usize) -> String {
+    sentence_with_budget(g, rule, rng, max_depth, 400)
+}
+
+/// Like [`sentence`], with an explicit node budget (deeply nested sentences need a larger one).
+pub fn sentence_with_budget(g: &Grammar, rule: &str, rng: &mut Rng, max_depth: usize, budget: usize) -> String {
     let key = vutil::fnv(g.text.as_bytes());
     let cost = COSTS.with(|c| c.borrow_mut().entry(key).or_insert_with(|| rule_costs(g)).clone());
-    let mut s = S { g, rng, stack: Vec::new(), max_depth, budget: 400, cost: &cost };
+    let mut s = S { g, rng, stack: Vec::new(), max_depth, budget, cost: &cost };
     let mut out = String::new();
     let idx = g.index[rule];
     s.rule(idx, &mut out, true, 0);
@@ -565,6 +570,13 @@ pub fn inputs_for(g: &Grammar, rule: &str, a: &Alphabet, rng: &mut Rng, sentence
         let s = sentence(g, rule, rng, 3 + i % 5);
         base.push(s.clone());
         push(s, &mut order);
+    }
+    // deeply nested sentences (recursive rules: token trees of depth 20 and more)
+    for depth in [24usize, 60] {
+        let s = sentence_with_budget(g, rule, rng, depth, 6000);
+        if s.len() <= 400 {
+            push(s, &mut order);
+        }
     }
     for i in 0..mutations {
         let b = &base[i % base.len().max(1)];
